@@ -515,7 +515,7 @@ def run_g(o: Outcome, cfgs):
         real = models.get(did)
         if real is None:
             continue
-        if real == c["tree"] or ("treeA" in c and real == c["treeA"]):
+        if real == pt.model_text(c["tree"]) or ("treeA" in c and real == pt.model_text(c["treeA"])):
             continue
         o.note_drift({"chunks": c["doc"], "text": docs[did], "machine_tree": c["tree"], "real_tree": real})
         key = " ".join(sorted(set(c["doc"])))
